@@ -269,3 +269,39 @@ def check_grow(case, events, extra, initial=1, maxpages=MAXPAGES):
     if len(succ) >= 2:
         classes.add('several_successful_grows')
     return None, classes
+
+
+# ------------------------------------------------------------------------------------------------ vsched self-test
+def selftest(nstrings=1500, seed=7):
+    """the scheduler must reach exactly the expected outcome sets on small programs with known behaviour"""
+    import random
+    cd = cexec.cache_dir()
+    exe = os.path.join(cd, 'vsched_selftest')
+    if not os.path.exists(exe):
+        r = cexec.run(['gcc', '-O1', '-w', '-I', os.path.join(cexec.VERIF, 'c'), os.path.join(cexec.VERIF, 'c', 'vsched_selftest.c'),
+                       os.path.join(cexec.VERIF, 'c', 'vsched.c')] + WRAP_FLAGS + ['-o', exe + '.tmp', '-lpthread'])
+        if r.returncode != 0:
+            return ['building the vsched self-test failed: %s' % r.stderr.decode(errors='replace')[-800:]]
+        os.rename(exe + '.tmp', exe)
+    rng = random.Random(seed)
+    problems = []
+    want = {(0, 3): {'1', '2'}, (1, 3): {'2'}, (2, 3): {'0', '1'}, (2, 0): {'0'}, (3, 3): {'0', 'deadlock'}}
+    for (sc, spur), exp in sorted(want.items()):
+        seen = set()
+        for i in range(nstrings):
+            dec = bytes(rng.randrange(256) for _ in range(rng.choice((0, 4, 12, 30)))).hex()
+            env = dict(os.environ)
+            env['VSCHED_DECISIONS'] = dec
+            env['VSCHED_SPURIOUS'] = str(spur)
+            r = subprocess.run([exe, str(sc)], stdout=subprocess.PIPE, stderr=subprocess.PIPE, env=env, timeout=30)
+            if r.returncode == 66:
+                seen.add('deadlock')
+            elif r.returncode == 0:
+                seen.add(r.stdout.decode().split()[1])
+            else:
+                seen.add('exit%d' % r.returncode)
+            if seen == exp and i > 50:
+                break
+        if seen != exp:
+            problems.append('vsched self-test scenario %d (spurious budget %d): outcomes %r, expected exactly %r' % (sc, spur, sorted(seen), sorted(exp)))
+    return problems
